@@ -119,7 +119,10 @@ class Track(object):
                 duration = value.subtract(duration, dur)
 
         def add_chord(chord, duration):
-            if isinstance(chord, list):
+            if chord is None:
+                # a rest, at whatever depth of the list it stands
+                add_split(None, duration)
+            elif isinstance(chord, list):
                 for c in chord:
                     add_chord(c, duration * 2)
             else:
@@ -129,10 +132,7 @@ class Track(object):
                 add_split(chord, duration)
 
         for c in chords:
-            if c is not None:
-                add_chord(c, duration)
-            else:
-                add_split(None, duration)
+            add_chord(c, duration)
         return self
 
     def get_tuning(self):
